@@ -12,7 +12,8 @@ class NonTermination(BaseException):
 
 _state = {'count': 0, 'limit': None, 'installed': False, 'max_ratio': 0.0}
 
-_WRAPPED = ('peek_token', 'peek_chars', 'next_chars', 'skip_space_chars', 'peek_space_chars')
+_WRAPPED = ('peek_token', 'next_token', 'peek_chars', 'next_chars', 'skip_space_chars',
+            'peek_space_chars')
 
 
 def install():
